@@ -392,6 +392,25 @@ func (in *Interp) floatToInt(x *Term, w int, signed bool) Value {
 		}
 		return st.Const(w, r)
 	}
+	if x.Op == OIte {
+		// push the conversion into ite trees (tables of constants)
+		memo := map[int32]*Term{}
+		var rec func(t *Term) *Term
+		rec = func(t *Term) *Term {
+			if r, ok := memo[t.ID]; ok {
+				return r
+			}
+			var r *Term
+			if t.Op == OIte {
+				r = st.Ite(t.Args[0], rec(t.Args[1]), rec(t.Args[2]))
+			} else {
+				r = in.floatToInt(t, w, signed).(*Term)
+			}
+			memo[t.ID] = r
+			return r
+		}
+		return rec(x)
+	}
 	two63 := st.FPConst(9223372036854775808.0)
 	inRange := st.And(st.FLt(st.FPConst(-9223372036854777856.0), x), st.FLt(x, two63)) // (-2^63-2048.. , 2^63): trunc fits int64
 	// precise: x >= -2^63 (exactly representable) and x < 2^63
